@@ -47,6 +47,40 @@ def run(ctx):
         u = G.schema_sx(cells.union_of(singles[a], singles[b], extra_null=rng.random() < 0.3))
         for sv in (rng.sample(svs, 40) if quick else svs):
             lines.append("ser %s %s slow" % (u, sv)); meta.append(("cell-union", a + "|" + b)); schemas.append(u)
+    # ---- 1b. type-directed union choice with several equally suitable branches must fail: unions of 2..4 branches that the
+    #          specification gives no way to prefer (same base type, all logical / all plain of one class; several records and
+    #          maps for a struct-or-map presentation), presented by type only
+    import itertools
+    N = G.Node
+    long_class = [N("long"), N("long", lt="time-micros"), N("long", lt="timestamp-millis"), N("long", lt="timestamp-micros")]
+    int_class = [N("int"), N("int", lt="date"), N("int", lt="time-millis")]
+    ambiguous = []
+    for cls, fits in ((long_class, ["(i64 5)", "(u64 5)", "(i128 5)", "(u128 5)", "(some (i64 -7))", "(i64 9223372036854775807)"]),
+                      (int_class, ["(i32 5)", "(i16 5)", "(u8 5)", "(i8 -5)", "(u16 5)", "(some (i32 -7))"])):
+        for k in (2, 3, 4):
+            for combo in itertools.combinations(cls, k):
+                for extra in ([], [N("null")], [N("string")]):
+                    nodes = [N("union", variants=list(range(1, 1 + len(combo) + len(extra))))] + list(combo) + extra
+                    for sv in fits:
+                        ambiguous.append((G.schema_sx(nodes), sv))
+    recs = [N("record", name="A%d" % i, fields=[("x", 0)]) for i in range(3)]
+    for k in (2, 3):
+        for with_map in (False, True):
+            br = recs[:k] + ([N("map", values=0)] if with_map else [])
+            nodes = [N("int"), N("union", variants=list(range(2, 2 + len(br))))] + br
+            nodes = [nodes[1], nodes[0]] + nodes[2:]          # root = the union; node 1 = int
+            for b in nodes[2:]:
+                if b.t == "record":
+                    b.fields = [("x", 1)]
+                else:
+                    b.values = 1
+            for sv in ["(map none (entry (str %s) (i32 1)))" % C.hx("x"), "(map 1 (entry (str %s) (i32 1)))" % C.hx("x"),
+                       "(struct %s 1 (%s (i32 1)))" % (C.hx("Other"), C.hx("x")), "(some (struct %s 1 (%s (i32 1))))" % (C.hx("Other"), C.hx("x"))]:
+                ambiguous.append((G.schema_sx(nodes), sv))
+    amb_idx = set()
+    for sch, sv in ambiguous:
+        amb_idx.add(len(lines))
+        lines.append("ser %s %s" % (sch, sv)); meta.append(("ambiguous-union", "")); schemas.append(sch)
     # ---- 2. random presentations of conforming values, with deliberate breakages
     nrand = 2500 if quick else 120000
     rp = [G.schema_and_value(rng, layouts=False) for _ in range(nrand)]
@@ -71,6 +105,8 @@ def run(ctx):
             violations.append({"impl_case": line, "what": "the serializer panicked", "impl": ri[:200]})
         if ri.startswith("(ok"):
             de_lines.append("de %s any %s slice (cfg 100000 64 100000)" % (schemas[i], C.parse_sx(ri)[0][1])); de_idx.append(i)
+        if i in amb_idx and ri.startswith("(ok"):
+            violations.append({"impl_case": line, "what": "a type-directed union choice with several equally suitable branches was accepted", "impl": ri[:200]})
         if i in rand_meta:
             ex, notes, s = rand_meta[i]
             if ex == "err" and ri.startswith("(ok"):
